@@ -246,7 +246,7 @@ func runC19(c *kit.Ctx) {
 
 	// ---- R4 ---------------------------------------------------------------
 	c.StartRule("R6", "Close acquires no mutex that is held across a blocking operation", 1)
-	noBlockingWhileLocked(c, true)
+	noBlockingWhileLocked(c, true, [3]string{"", "client", "Close"}, [3]string{"region", "client", "Close"})
 
 	c.StartRule("R4", "no connection is created after Close", 4)
 	c.Table("C19.R4: the admin branch of establishRegion creates the master connection without a closed test (reason: AdminClient exposes no Close; newAdminClient does not even create the done channel)")
